@@ -22,7 +22,7 @@ func init() {
 		Rule: "per generated document: target types from a hand-written catalogue (every supported kind, pointer depth 0-3, nested structs, slices of scalars / structs / pointers, untagged fields, tagged pointer fields that already point to recognisable values before the call (which must stay untouched), unexported tagged fields, unsupported kinds) and from reflect.StructOf compositions of exported tagged fields, tag expressions of all four result types and of wrong shapes, namespace/variable bindings, slice targets with pre-existing elements; " +
 			"oracle: the expected value of every tagged field is computed from a separate xsel.Exec of the tag on the same node (String()/Bool()/Number() converted with Go's conversion to the field type, slice element i from node i in result order, struct fields recursively, pointers non-nil and not aliasing one another), untagged fields must keep their sentinels, targets that cannot be filled and results of the wrong shape must return an error, and no call may panic. distinct_nontrivial = distinct (target type, outcome class) pairs with at least one field filled from a non-empty result",
 		Assumptions: []string{"numbers that do not fit the target integer type (or NaN) are not judged: Go's float-to-int conversion is implementation-defined there", "error texts are not compared, only error-ness", "a top-level slice target with pre-existing elements may keep them as a prefix or drop them; the new elements must be the tail in order"},
-		NCases:      func(tier string) int { return map[string]int{"quick": 900, "thorough": 20000}[tier] },
+		NCases:      func(tier string) int { return map[string]int{"quick": 900, "thorough": 12000}[tier] },
 		Case:        c19Case,
 	})
 }
